@@ -12,7 +12,7 @@ import itertools
 import json
 
 from ..core import Stream
-from ..gen.c02_values import CLASS_NAMES, UNDEF, member
+from ..gen.c02_values import CLASS_NAMES, FIXED_SPAN, UNDEF, fixed_members, member
 from ..gen.templates import gen_program, malform
 from ..impl.render import make_env, run_async
 
@@ -20,11 +20,16 @@ ID = "C02"
 LEAN_MODULE = "LiquidVerif.Props.C02"
 TRANSLATE = True
 RULE = (
-    "stream prim: every primitive/helper of Model/PyPrim+ExcFlow on the representative and random members of every value "
-    "class (49 classes; pairs for binary primitives), real Python / real liquid helper vs the table; stream filter: "
+    "stream prim: every primitive/helper of Model/PyPrim+ExcFlow on the representative, on every hand-picked nasty member "
+    "(class boundaries, shortest/longest/oddest spellings: harness/gen/c02_values.py NASTY) and on random members of every value "
+    "class (50 classes; pairs for binary primitives), real Python / real liquid helper vs the table; stream filter: "
     "registered filter x left class x argument classes (0..3 positional arguments, one more than the arity included) rendered "
     "as {% assign r = l | f: a0, a1 %} through the real environment (extra=True), observation ok | liquid | leak:<Type>, must "
-    "be one of the outcomes the model allows; stream sites: tag-level holes (output, range bounds, for/tablerow options, "
+    "be one of the outcomes the model allows; every no-argument cell runs on all hand-picked members, sampled cells on the "
+    "representative and on a hand-picked member, the %-formatting filters on every hand-picked percent string in the message "
+    "and in the plural position; stream percent: every message over the fragments %, %%, (you)s, (x)d, space, d, ! up to 4 (5) "
+    "fragments through t, gettext, pgettext, ngettext/npgettext plural and the translate tag (exhaustive; all run lengths of "
+    "percent signs in front of text, placeholders, non-conversion characters and the end of the string); stream sites: tag-level holes (output, range bounds, for/tablerow options, "
     "contains, comparisons, subscripts, case/when, cycle, include/render, with, macro, translate, ternary) x class x "
     "STRICT/WARN/LAX; stream handlers: every exception class of the generated hierarchy raised from inside _parse and from "
     "inside a filter, through from_string / the render loop; stream render: shared generator programs under "
@@ -255,14 +260,19 @@ class PrimStream(ModelStream):
     parallel = True
 
     def cases(self, ctx):
-        reps = ctx.scale(4, 16)
+        rnd = ctx.scale(2, 12)
         out = []
-        # static description of the table (argument class lists) without importing liquid
         for p, (arglists, _, _) in _prim_table().items():
             for combo in itertools.product(*arglists):
-                nrep = reps if len(combo) == 1 else max(1, reps // 4)
-                for k in range(nrep):
+                # every hand-picked member of every operand class (binary primitives: the members are cycled
+                # together, quick tier capped), then random members
+                nfixed = max(len(fixed_members(c)) if c in CLASS_NAMES else 1 for c in combo)
+                if len(combo) > 1:
+                    nfixed = min(nfixed, ctx.scale(3, 16))
+                for k in range(nfixed):
                     out.append({"prim": p, "cls": list(combo), "k": k})
+                for j in range(rnd if len(combo) == 1 else max(1, rnd // 4)):
+                    out.append({"prim": p, "cls": list(combo), "k": FIXED_SPAN + 1 + j})
         return out
 
     def impl(self, case):
@@ -309,13 +319,24 @@ def _filter_src(f, nargs):
     return "{% assign r = l | " + f + (": " + ", ".join(f"a{i}" for i in range(nargs)) if nargs else "") + " %}"
 
 
-def run_filter_cell(f, left, args, k, mode="strict"):
+def member_indices(k, nargs, ks=None):
+    """Member index of the left value and of each argument: explicit `ks`, else derived from the cell's `k`
+    (k = 0: all representatives; small k: the hand-picked members, cycled differently per operand; large k: random)."""
+    if ks is not None:
+        return list(ks)
+    if k < FIXED_SPAN:
+        return [k] + [k * 3 + i for i in range(nargs)]
+    return [k] + [k + 1 + i for i in range(nargs)]
+
+
+def run_filter_cell(f, left, args, k, mode="strict", ks=None):
     data = {}
-    v = member(left, k)
+    idx = member_indices(k, len(args), ks)
+    v = member(left, idx[0])
     if v is not UNDEF:
         data["l"] = v
     for i, a in enumerate(args):
-        v = member(a, k + 1 if k else 0)
+        v = member(a, idx[1 + i] % FIXED_SPAN if ks is None and k < FIXED_SPAN else idx[1 + i])
         if v is not UNDEF:
             data[f"a{i}"] = v
     env = _env(mode)
@@ -341,8 +362,10 @@ class FilterStream(ModelStream):
 
         for f, mn, mx in nm["filters"]:
             mx = min(mx, 3)
+            # no argument: every hand-picked member of every class
             for l in classes:
-                out.append({"f": f, "l": l, "a": [], "k": 0})
+                for k in range(len(fixed_members(l))):
+                    out.append({"f": f, "l": l, "a": [], "k": k})
             # one argument: the whole grid (thorough) / every (left, arg) pair with probability 22 % (quick)
             full1 = mx >= 1
             for l in classes:
@@ -351,6 +374,8 @@ class FilterStream(ModelStream):
                         continue
                     if thorough and full1 or (full1 and rng.chance(22)) or (not full1 and rng.chance(2)):
                         out.append({"f": f, "l": l, "a": [a], "k": 0})
+                        if full1 and (thorough or rng.chance(25)):  # the same cell on hand-picked members
+                            out.append({"f": f, "l": l, "a": [a], "k": rng.range(1, 20)})
             if mx >= 2:
                 n2 = ctx.scale(300, 4000)
                 for _ in range(n2):
@@ -371,25 +396,38 @@ class FilterStream(ModelStream):
             for _ in range(ctx.scale(60, 400)):
                 a = [rng.choice(classes) for _ in range(rng.range(0, max(mx, 1)))]
                 if ok(f, a):
-                    out.append({"f": f, "l": rng.choice(classes), "a": a, "k": rng.range(1, 1 << 30)})
+                    out.append({"f": f, "l": rng.choice(classes), "a": a, "k": rng.range(FIXED_SPAN, 1 << 30)})
+        # aimed: the %-formatting filters on every hand-picked percent string, in the message and in the plural position
+        pct = [(c, j) for c in ("str_pct", "str_fmt_d", "str_fmt_s") for j in range(len(fixed_members(c)))]
+        for c, j in pct:
+            out.append({"f": "t", "l": c, "a": [], "k": j})
+            out.append({"f": "gettext", "l": c, "a": [], "k": j})
+            out.append({"f": "t", "l": c, "a": ["str_other"], "k": 0, "ks": [j, 0]})
+            out.append({"f": "pgettext", "l": c, "a": ["str_other"], "k": 0, "ks": [j, 0]})
+            for n in ("int_zero", "int_pos"):
+                out.append({"f": "ngettext", "l": c, "a": ["str_other", n], "k": 0, "ks": [j, 0, 1]})
+                out.append({"f": "ngettext", "l": "str_other", "a": [c, n], "k": 0, "ks": [0, j, 1]})
+                out.append({"f": "npgettext", "l": c, "a": ["str_other", "str_other", n], "k": 0, "ks": [j, 0, 0, 1]})
+                out.append({"f": "npgettext", "l": "str_other", "a": ["str_other", c, n], "k": 0, "ks": [0, 0, j, 1]})
         self.exhaustive = False
         return out
 
     def impl(self, case):
-        obs = run_filter_cell(case["f"], case["l"], case["a"], case["k"])
+        obs = run_filter_cell(case["f"], case["l"], case["a"], case["k"], ks=case.get("ks"))
         giant = case["l"] == "int_giant" or "int_giant" in case["a"]
-        return mark_digits(obs, giant, lambda: run_filter_cell(case["f"], _degiant(case["l"]), [_degiant(a) for a in case["a"]], case["k"]))
+        return mark_digits(obs, giant, lambda: run_filter_cell(case["f"], _degiant(case["l"]), [_degiant(a) for a in case["a"]], case["k"], ks=case.get("ks")))
 
     def line_obs(self, case, obs):
         return ["c02.filter", case["f"], case["l"], case["a"], obs["out"]]
 
     def tags(self, case, obs):
-        return [f"args{len(case['a'])}", obs["out"].split(":")[0], "member" if case["k"] else "rep"]
+        kind = "aimed" if "ks" in case else "rep" if case["k"] == 0 else "nasty" if case["k"] < FIXED_SPAN else "random"
+        return [f"args{len(case['a'])}", obs["out"].split(":")[0], kind]
 
     def shrink_candidates(self, case):
         for i in range(len(case["a"])):
             yield {**case, "a": case["a"][:i] + case["a"][i + 1 :]}
-        if case["k"]:
+        if case["k"] and "ks" not in case:
             yield {**case, "k": 0}
         for benign in ("str_other", "int_pos"):
             if case["l"] != benign:
@@ -397,6 +435,79 @@ class FilterStream(ModelStream):
             for i, a in enumerate(case["a"]):
                 if a != benign:
                     yield {**case, "a": case["a"][:i] + [benign] + case["a"][i + 1 :]}
+
+
+# ---- stream percent --------------------------------------------------------------------------------------
+PCT_FRAGMENTS = ["%", "%%", "(you)s", "(x)d", " ", "d", "!"]
+PCT_TEMPLATES = {
+    "t": ("{% assign r = s | t %}", "t", 0),
+    "t_var": ("{% assign r = s | t: you: 'World' %}", "t", 0),
+    "gettext": ("{% assign r = s | gettext: you: 'W' %}", "gettext", 0),
+    "pgettext": ("{% assign r = s | pgettext: 'ctx' %}", "pgettext", 0),
+    "ngettext_plural": ("{% assign r = 'one' | ngettext: s, 2 %}", "ngettext", 1),
+    "npgettext_plural": ("{% assign r = 'one' | npgettext: 'ctx', s, 0 %}", "npgettext", 2),
+    "tag": ("{% translate %}" + "\x00" + "{% endtranslate %}", None, 0),
+}
+
+
+def pct_class(s: str) -> str:
+    import re
+
+    if re.search(r"%\(\w+\)s", s):
+        return "str_fmt_s"
+    if "%" in s:
+        return "str_pct" if not re.search(r"%\(\w+\)[a-z]", s) else "str_fmt_d"
+    return "str_other"
+
+
+class PercentStream(ModelStream):
+    """Every message over a small alphabet of percent-ish fragments (runs of 1, 2, 3, ... percent signs in front of text,
+    of a placeholder, of a non-conversion character and of the end of the string) through every translate filter."""
+
+    name = "percent"
+    parallel = True
+    exhaustive = True
+
+    def cases(self, ctx):
+        msgs = sorted({"".join(p) for n in range(1, ctx.scale(4, 5) + 1) for p in itertools.product(PCT_FRAGMENTS, repeat=n)}
+                      | {"100% sure", "100%% sure", "100%%% sure", "100%%%", "%%%%%%%", "%(you)s%%%%%"})
+        out = []
+        for i, m in enumerate(msgs):
+            for j, t in enumerate(PCT_TEMPLATES):
+                if ctx.tier == "thorough" or j == 0 or (i + j) % 4 == 0:
+                    out.append({"msg": m, "tpl": t, "mode": MODES[(i + j) % 3]})
+        return out
+
+    def impl(self, case):
+        src, _, _ = PCT_TEMPLATES[case["tpl"]]
+        env = _env(case["mode"])
+        if case["tpl"] == "tag":
+            src = src.replace("\x00", case["msg"].replace("{", "").replace("}", ""))
+            return observe(lambda: env.from_string(src).render(you="W"))
+        return observe(lambda: env.from_string(src).render(s=case["msg"]))
+
+    def line_obs(self, case, obs):
+        _, f, pos = PCT_TEMPLATES[case["tpl"]]
+        if f is None or case["mode"] != "strict":
+            return None
+        c = pct_class(case["msg"])
+        left, args = (c, []) if pos == 0 else ("str_other", ["str_other"] * (pos - 1) + [c])
+        if f == "pgettext":
+            args = ["str_other"]
+        elif f == "ngettext":
+            args = [c, "int_pos"]
+        elif f == "npgettext":
+            args = ["str_other", c, "int_zero"]
+        return ["c02.filter", f, left, args, obs["out"]]
+
+    def nontrivial(self, case, obs):
+        return "%" in case["msg"]
+
+    def tags(self, case, obs):
+        import re
+
+        runs = [len(m) for m in re.findall(r"%+", case["msg"])]
+        return [case["tpl"], obs["out"].split(":")[0], "maxrun" + str(min(max(runs, default=0), 5))]
 
 
 # ---- stream sites ---------------------------------------------------------------------------------------
@@ -472,7 +583,9 @@ class SitesStream(ModelStream):
                 for m in MODES:
                     out.append({"site": s, "cls": c, "k": 0, "mode": m, "async": False})
                 out.append({"site": s, "cls": c, "k": 0, "mode": "strict", "async": True})
-                for k in range(1, ctx.scale(2, 8)):
+                # the hand-picked members of the class, then random ones
+                ks = list(range(1, min(len(fixed_members(c)), ctx.scale(4, 64)))) + [FIXED_SPAN + j for j in range(ctx.scale(1, 4))]
+                for k in ks:
                     out.append({"site": s, "cls": c, "k": k, "mode": MODES[k % 3], "async": k % 2 == 0})
         return out
 
@@ -577,7 +690,7 @@ class RenderStream(Stream):
             r2 = rng.fork("v" + str(i))
             if r2.chance(60):
                 for name in r2.sample(["a", "b", "c", "x", "y", "n", "s", "t"], r2.range(1, 3)):
-                    prog["data"][name] = ["@cls", r2.choice([c for c in CLASS_NAMES if c not in ("undefined",)]), r2.range(0, 1 << 20)]
+                    prog["data"][name] = ["@cls", r2.choice([c for c in CLASS_NAMES if c not in ("undefined",)]), r2.range(0, 48) if r2.chance(60) else r2.range(FIXED_SPAN, 1 << 20)]
             prog["mode"] = MODES[i % 3]
             prog["async"] = i % 4 == 3
             out.append(prog)
@@ -760,4 +873,4 @@ def extra(ctx):
 
 
 def streams(ctx):
-    return [PrimStream(), FilterStream(), SitesStream(), HandlerStream(), DeepStream(), RenderStream(), ParseStream()]
+    return [PrimStream(), FilterStream(), PercentStream(), SitesStream(), HandlerStream(), DeepStream(), RenderStream(), ParseStream()]
